@@ -24,7 +24,7 @@ VALUE_KINDS = {
     "null": type(None), "bool": bool, "int": int, "str": str,
     "arr_int": List[int], "arr_str": List[str], "arr_bool": List[bool], "arr_scalar": List[Scalar],
     "obj_int": Dict[str, int], "obj_str": Dict[str, str], "obj_bool": Dict[str, bool],
-    "obj_arr_str": Dict[str, List[str]], "arr_arr_str": List[List[str]],
+    "obj_arr_str": List[str], "arr_arr_str": List[str],     # one symbolic array inside a concrete wrapper (two symbolic levels do not finish)
     "float": int,          # index into FLOATS
     "subschema": int,      # index into SUBSCHEMAS (concrete small schemas, valid and invalid ones)
     "arr_subschema": int,  # pairs from SUBSCHEMAS
@@ -56,6 +56,10 @@ def value_of(d, kind, v):
     subs = SUBSCHEMAS + (SUBSCHEMAS_BOOL if d >= 6 else [])
     if kind == "float":
         return pick(FLOATS, v)
+    if kind == "obj_arr_str":
+        return {"a": v, "": ["x"]}
+    if kind == "arr_arr_str":
+        return [v, ["y"]]
     if kind == "subschema":
         return pick(subs, v)
     if kind == "arr_subschema":
